@@ -17,6 +17,7 @@
 #include <fcppt/options/make_default_value.hpp>
 #include <fcppt/options/make_inactive_value.hpp>
 #include <fcppt/options/make_many.hpp>
+#include <fcppt/options/make_sum.hpp>
 #include <fcppt/options/option.hpp>
 #include <fcppt/options/optional_help_text.hpp>
 #include <fcppt/options/optional_short_name.hpp>
@@ -25,7 +26,9 @@
 #include <fcppt/parse/char.hpp>
 #include <fcppt/parse/make_convert.hpp>
 #include <fcppt/parse/parse_string.hpp>
+#include <fcppt/parse/operators/alternative.hpp>
 #include <fcppt/parse/operators/optional.hpp>
+#include <fcppt/parse/literal.hpp>
 #include <fcppt/parse/operators/repetition.hpp>
 #include <fcppt/parse/operators/repetition_plus.hpp>
 #include <fcppt/parse/operators/sequence.hpp>
@@ -71,6 +74,9 @@ using c05v::val;
 
 FCPPT_RECORD_MAKE_LABEL(flag_label);
 FCPPT_RECORD_MAKE_LABEL(opt_label);
+FCPPT_RECORD_MAKE_LABEL(opt2_label);
+FCPPT_RECORD_MAKE_LABEL(sum_label);
+using option2_type = fcppt::options::option<opt2_label, val>;
 using flag_type = fcppt::options::flag<flag_label, val>;
 using option_type = fcppt::options::option<opt_label, val>;
 
@@ -175,6 +181,30 @@ void options()
   }
 }
 
+void sums()
+{
+  // sum of two options: the value of whichever alternative matched ends up in the result variant
+  for (int variant = 0; variant < 3; ++variant)
+  {
+    if (!wanted("options::sum::parse")) break;
+    reset("options::sum::parse", variant == 0 ? "--a 5" : variant == 1 ? "--b 6" : "neither", "");
+    {
+      auto const no_default = [] { return fcppt::optional::object<val>{}; };
+      auto const p{fcppt::options::make_sum<sum_label>(
+          option_type{fcppt::options::optional_short_name{}, fcppt::options::long_name{FCPPT_TEXT("a")},
+                      option_type::optional_default_value{no_default()}, fcppt::options::optional_help_text{}},
+          option2_type{fcppt::options::optional_short_name{}, fcppt::options::long_name{FCPPT_TEXT("b")},
+                       option2_type::optional_default_value{no_default()}, fcppt::options::optional_help_text{}})};
+      fcppt::args_vector const args{variant == 0   ? fcppt::args_vector{FCPPT_TEXT("--a"), FCPPT_TEXT("5")}
+                                    : variant == 1 ? fcppt::args_vector{FCPPT_TEXT("--b"), FCPPT_TEXT("6")}
+                                                   : fcppt::args_vector{}};
+      begin("options::sum::parse", false, {});
+      auto const r = fcppt::options::parse(p, args);
+      end(r, {});
+    }
+  }
+}
+
 void parsers()
 {
   // an element parser whose value is a tracked object made by the convert continuation
@@ -204,6 +234,8 @@ void parsers()
     run("parse::sequence3", elem() >> elem() >> elem(), in);
     run("parse::sequence+repetition", elem() >> *elem(), in);
     run("parse::optional", -elem(), in);
+    // alternative of two parsers with the same (tracked) result type; the first one requires 'a'
+    run("parse::alternative", (fcppt::parse::literal{'a'} >> elem()) | elem(), in);
   }
 }
 }
@@ -213,6 +245,7 @@ namespace c05
 void drive_parsers()
 {
   options();
+  sums();
   parsers();
 }
 }
